@@ -129,7 +129,9 @@ def _concrete(ne, seq, params, mats, state, gval, fval, gvals=None):
         if fval is not None:
             F[n - 1] += fval
         free = np.arange(1, n)
-        scale = 1 + max(np.abs(K).max(), np.abs(C).max(), np.abs(M).max()) * max(np.abs(u1).max(), np.abs(v1).max(), np.abs(a1).max() if a1 is not None else 0)
+        # relative to the size of the terms of the equation (homogeneous in the state: no absolute floor, tiny states are judged like any other)
+        smax = max([np.abs(x_).max() for x_ in (u1, v1, a1, un, vn, an) if x_ is not None and np.size(x_)] + [float(np.abs(F).max()), abs(gval)])
+        scale = max(np.abs(K).max(), np.abs(C).max(), np.abs(M).max(), 1.0) * max(smax, 1e-300)
         if algo == "euler_explicit":
             res = (M @ a1 + C @ vn + K @ un - F)[free]
             viol = [np.abs(res).max(), np.abs(u1 - (un + dt * vn)).max(), np.abs(v1 - (vn + dt * a1))[free].max()]
@@ -187,9 +189,17 @@ def job_step(cfg):
         mesh, simu, g = build(c, ne, ("K", "C", "F") if algo == "parabolic" else ("K", "C", "M", "F"))
     n = mesh.Nn
     dt, alpha, beta, gamma = _params(c, algo)
-    un, vn, an = sym_array("un", n), sym_array("vn", n), sym_array("an", n)
-    gD = c.var("gD", -1, 1)
-    fN = c.var("fN", -1, 1)
+    # 'tiny': the same step in units where every state / load value is below 2^-50 ~ 9e-16 (the relations are homogeneous in the state: no
+    # absolute magnitude may decide anything)
+    sc = Fraction(1, 2 ** 50) if cfg.get("tiny") else Fraction(1)
+    if cfg.get("tiny"):
+        mats_ = list(simu.mats[g.elemType])
+        if mats_[3] is not None:
+            mats_[3] = np.asarray(mats_[3], dtype=object) * sc  # element load vectors in the same tiny units
+        simu.mats[g.elemType] = tuple(mats_)
+    un, vn, an = sym_array("un", n, -sc, sc), sym_array("vn", n, -sc, sc), sym_array("an", n, -sc, sc)
+    gD = c.var("gD", -sc, sc)
+    fN = c.var("fN", -sc, sc)
     pt = simu.problemType
     res.functions |= {"_Simu.Solver_Set_Hyperbolic_Algorithm", "_Simu.Solver_Set_Parabolic_Algorithm", "_Simu._Solver_Evaluate_u_v_a_for_time_scheme",
                       "_Simu._Solver_Get_K_C_M_coefs_for_time_scheme", "_Simu._Solver_Apply_Neumann", "_Simu._Solver_Apply_Dirichlet",
@@ -226,7 +236,7 @@ def job_step(cfg):
     res.path_conditions = len(pcs)
     res.symbols = len(c.input_vids())
     free = list(range(1, n))
-    key = f"{algo} ne={ne}" + (" incremental" if incremental else "")
+    key = f"{algo} ne={ne}" + (" incremental" if incremental else "") + (" tiny state" if cfg.get("tiny") else "")
 
     def replay(env):
         mats = tuple(_num(c, env, m_) for m_ in simu.mats[g.elemType])
@@ -456,6 +466,8 @@ def main():
         configs.append({"kind": "step", "algo": algo, "ne": 1})
         if algo != "euler_explicit":
             configs.append({"kind": "step", "algo": algo, "ne": 1, "incremental": True})
+    for algo in (ALGOS if tier == "thorough" else ["newmark", "hht", "midpoint", "parabolic"]):
+        configs.append({"kind": "step", "algo": algo, "ne": 1, "tiny": True})
     for algo in ("newmark", "midpoint", "euler_implicit"):
         configs.append({"kind": "energy", "algo": algo})
     switches = [("newmark", "hht"), ("hht", "midpoint"), ("midpoint", "newmark"), ("euler_implicit", "newmark"),
